@@ -73,6 +73,12 @@ def main():
     results.sort()
     path = os.path.join(ROOT, "seeded", "RESULTS.md")
     old = open(path).read() if os.path.exists(path) else ""
+    # rows of the kinds that were not run this time are kept from the last record
+    for line in old.splitlines():
+        cells = [c.strip() for c in line.strip().strip("|").split("|")]
+        if len(cells) == 6 and cells[0] in ("seeded", "benign", "prefix") and cells[0] not in which:
+            results.append(tuple(cells))
+    results.sort()
     with open(path, "w") as f:
         f.write("# Checks run against seeded changes, benign refactorings and reverted fixes\n\n"
                 "Produced by tools/run_matrix.py (each row: a scratch copy of /repo with the change applied, `./check <ID>`).\n"
